@@ -13,6 +13,9 @@ type vStubFS struct {
 	yield    bool   // vYield inside every call (concurrent harnesses)
 	noFail   bool   // calls never fail
 	attaches int
+	// scripted failures for the concurrent pair harness, keyed by entity id
+	failRelease map[int]bool
+	failClone   map[int]bool
 }
 
 type vStubEnt struct {
@@ -113,7 +116,7 @@ func (e *vStubEnt) Walk(ctx context.Context, names ...string) ([]Qid, Dirent, er
 	defer e.leave()
 	dummy := &vStubEnt{fs: e.fs, dummy: true}
 	if len(names) == 0 {
-		if e.fs.fails("clone") {
+		if e.fs.failClone[e.id] || e.fs.fails("clone") {
 			return nil, dummy, errVMock
 		}
 		return nil, e.fs.newEnt(e.dir), nil
@@ -164,7 +167,7 @@ func (e *vStubEnt) Remove(ctx context.Context) error {
 	defer e.leave()
 	e.released++
 	e.removed = true
-	if e.fs.fails("remove") {
+	if e.fs.failRelease[e.id] || e.fs.fails("remove") {
 		return errVMock
 	}
 	return nil
@@ -174,7 +177,7 @@ func (e *vStubEnt) Clunk(ctx context.Context) error {
 	e.enter("clunk")
 	defer e.leave()
 	e.released++
-	if e.fs.fails("clunk") {
+	if e.fs.failRelease[e.id] || e.fs.fails("clunk") {
 		return errVMock
 	}
 	return nil
